@@ -7,6 +7,7 @@ import TT.Transform.Slash
 import TT.Spec.HeadRulesPinned
 import TT.Spec.Pinned
 import TT.Spec.RootAttachRef
+import TT.Spec.More12d
 import TT.Spec.Grammar
 namespace Driver
 open TT TT.Tree
@@ -55,9 +56,16 @@ def applyT (c : TCall) (t : Tree) : Except Err (Option Tree) :=
   | "binarize" => (binarize (c.has "bare_bin_labels") t).map some
   | "collapse_unary_chains" => .ok (some (collapse t))
   | "uncollapse_unary_chains" => .ok (some (uncollapse t))
+  -- the requests are the lines of the terminal file for this sentence, in FILE order: the loader refuses a file that
+  -- names an index twice (TT.parseTermFile), and the requests are applied in the order of their indices (TT.reqsFor)
   | "insert_terminals" =>
-    .ok (some (insertTerminals ((decReqs ((c.get "reqs").getD "")).map fun (k, w, p) => (k, w, p.getD [])) t))
-  | "substitute_terminals" => .ok (some (substituteTerminals (decReqs ((c.get "reqs").getD "")) t))
+    let reqs := decReqs ((c.get "reqs").getD "")
+    if !(reqs.map (·.1)).eraseDups.length == reqs.length then .error .valueError else
+    .ok (some (insertTerminals ((sortBy (·.1) reqs).map fun (k, w, p) => (k, w, p.getD [])) t))
+  | "substitute_terminals" =>
+    let reqs := decReqs ((c.get "reqs").getD "")
+    if !(reqs.map (·.1)).eraseDups.length == reqs.length then .error .valueError else
+    .ok (some (substituteTerminals (sortBy (·.1) reqs) t))
   | "filter_by_length" =>
     let op := match c.get "filteroperator" with
       | some "lt" => FilterOp.lt | some "gt" => FilterOp.gt | some "eq" => FilterOp.eq | _ => FilterOp.other
@@ -198,7 +206,9 @@ def runOpTransform (op : String) (args : List String) : String :=
         let rules := match c.get "mark_heads_preset" with
           | some "negra" => Spec.PINNED_HEAD_RULES_NEGRA | some "ptb" => Spec.PINNED_HEAD_RULES_PTB | _ => []
         -- the specification's rule set is the pinned one, not the table regenerated from the code
-        firstFail (base ++ [okIf (Spec.uniqueListedOK rules b) "unique-listed-child-not-head"])
+        -- (the strict reading, without the escape for entries with an empty list: `presets_strict` proves it of the model)
+        firstFail (base ++ [okIf (Spec.uniqueListedOK rules b) "unique-listed-child-not-head",
+                            okIf (Spec.uniqueListedStrict rules b) "unique-listed-child-not-head-strict"])
       | _ => bad
     | _, _ => bad
   | "P.C14.binarize", [call, a, b] =>
